@@ -6,6 +6,7 @@ import ast
 import os
 
 from sa import effects
+from sa import cfg as cfgmod
 from sa import model
 from sa import norm
 from sa import origins
@@ -481,6 +482,33 @@ def check_r09c(repo, rep, uni):
                        'Statement.evaluate may only bind `$` in the supplied '
                        'context, writes %s' % model.norm(key) if key
                        is not None else 'non-subscript write',
+                       loc=fi.module.loc(node), construct=model.norm(node))
+                continue
+            if mod in ('yaql.language.expressions', 'yaql.language.runner',
+                       'yaql.yaql_interface') and fi.key not in \
+                    uni.payload_ov and isinstance(target, ast.Name) and \
+                    target.id in fi.params():
+                # the expression nodes, the dispatcher and the host
+                # interface are handed the HOST's context (a payload gets a
+                # per-call child): what they write must go into a child
+                # they made -- on every path that reaches the write
+                g = cfgmod.CFG(fi.node)
+                stmt = node if isinstance(node, ast.stmt) else \
+                    model.enclosing(node, ast.stmt)
+                use = g.node_of(stmt) if stmt is not None else None
+                defs = cfgmod.reaching_defs(g, use, target.id) \
+                    if use is not None else [g.entry]
+                from_host = [d for d in defs if d is g.entry or not (
+                    isinstance(getattr(d, 'ast', None), ast.Assign) and
+                    isinstance(d.ast.value, ast.Call) and isinstance(
+                        d.ast.value.func, ast.Attribute) and
+                    d.ast.value.func.attr == 'create_child_context')]
+                rep.ob('R09c', site, not from_host,
+                       'own/child context' if not from_host else
+                       '`%s` writes into the context the caller supplied '
+                       '(no child was created on this path): the host\'s '
+                       'context is changed by evaluating an expression' %
+                       model.norm(node).split('\n')[0][:80],
                        loc=fi.module.loc(node), construct=model.norm(node))
                 continue
             rep.ob('R09c', site, True, 'own/child context',
